@@ -67,3 +67,92 @@ Definition delay_step (w : BinNums.N) : rstep := fun st inp =>
       (st', Ok [ouns w (last st' 0)])
   | _ => (st, Err ETypeError)
   end.
+
+(** ** C15: one-slot hand-over channel, as a safety monitor with bounded response.
+    monitor state [full; data; wait_rx; wait_tx]
+    inputs  [send; want; din]   (producer asks to send din / consumer is willing)
+    outputs [sent; got; dout]   (pulses raised by the wrapper when it issued set/send resp. consumed)
+    rules: a send is only issued when the slot was empty before this clock (a set while set is
+    never issued / has no effect); a receive only happens when the slot was full, exactly once per
+    send, with the payload unmodified; and (bounded response, bound K) a willing consumer gets a
+    pending payload within K clocks, a requesting producer is served within K clocks once the slot
+    is empty.  [strict] = the consumer only consumes in a clock in which it is asked to (false for a
+    coroutine consumer that stays willing once started). *)
+Definition chan_monitor (K : Z) (strict : bool) : list Z -> list value -> list value -> list Z * bool := fun st inp outs =>
+  match st, inp, outs with
+  | [full; data; wrx; wtx], [send; want; din], [sent; got; dout] =>
+      let f := (full =? 1) in
+      let bad_sent := vbit sent && f in
+      let bad_got := vbit got && (negb f || negb (vnum dout =? data)) in
+      let unasked := (vbit sent && negb (vbit send)) || (strict && vbit got && negb (vbit want)) in
+      let full1 := if vbit got then 0 else full in
+      let '(full2, data2) := if vbit sent then (1, vnum din) else (full1, data) in
+      let wrx' := if vbit got then 0 else if f && vbit want then wrx + 1 else 0 in
+      let wtx' := if vbit sent then 0 else if negb f && vbit send then wtx + 1 else 0 in
+      ([full2; data2; wrx'; wtx'],
+       negb bad_sent && negb bad_got && negb unasked && (wrx' <=? K) && (wtx' <=? K))
+  | _, _, _ => (st, false)
+  end.
+
+(** ** C16: periodic utilities.  All reference machines observe after the clock. *)
+
+(** continuous_counter(ctx, limit): counts 0,1,..,limit,0,...  state [c]; no inputs; output [c] *)
+Definition counter_step (w : BinNums.N) (limit : Z) : rstep := fun st _ =>
+  match st with
+  | [c] => let c' := if c =? limit then 0 else c + 1 in ([c'], Ok [ouns w c'])
+  | _ => (st, Err ETypeError)
+  end.
+
+(** run-time limit (input [limit]): wraps when the counter has reached or passed the limit *)
+Definition counter_rt_step (w : BinNums.N) : rstep := fun st inp =>
+  match st, inp with
+  | [c], [l] => let c' := if vnum l <=? c then 0 else c + 1 in ([c'], Ok [ouns w c'])
+  | _, _ => (st, Err ETypeError)
+  end.
+
+(** ClockDivider(ctx, D) with enable/disable requests as inputs [en; dis]:
+    the divider is active unless disabled (request registered: takes effect one clock later);
+    while active a counter runs modulo D and [state] is the non-default level exactly in the
+    step where the counter is 0; [rising]/[falling] are one-step pulses on the edges of [state];
+    while disabled everything rests at its default.
+    state [off; c; s]   outputs [state; rising; falling] *)
+Definition divider_step (D : Z) (default_state tick_at_start : bool) : rstep := fun st inp =>
+  match st, inp with
+  | [off; c; s], [en; dis] =>
+      let off' := if vbit dis then 1 else if vbit en then 0 else off in
+      if off =? 1 then
+        ([off'; (if tick_at_start then D - 1 else 0); zb default_state],
+         Ok [obit default_state; obit false; obit false])
+      else
+        let c' := if c =? D - 1 then 0 else c + 1 in
+        let s' := if c' =? 0 then negb default_state else default_state in
+        let sb := (s =? 1) in
+        ([off'; c'; zb s'], Ok [obit s'; obit (negb sb && s'); obit (sb && negb s')])
+  | _, _ => (st, Err ETypeError)
+  end.
+
+(** ToggleSignal(ctx, first, second): [state] holds first_state for [first] steps, then the
+    opposite level for [second] steps, periodically; pulses on its edges.
+    state [c; s]   no inputs   outputs [state; rising; falling] *)
+Definition toggle_step (first second : Z) (default_state first_state : bool) : rstep := fun st _ =>
+  match st with
+  | [c; s] =>
+      let c' := if c =? first + second - 1 then 0 else c + 1 in
+      let s' := if c' <? first then first_state else negb first_state in
+      let sb := (s =? 1) in
+      ([c'; zb s'], Ok [obit s'; obit (negb sb && s'); obit (sb && negb s')])
+  | _ => (st, Err ETypeError)
+  end.
+
+(** debounce(ctx, inp, period): saturating up/down counter starting at period/2; the output
+    becomes '1' in a step with inp='1' and the counter at [period], '0' in a step with inp='0'
+    and the counter at 0.  state [cnt; out]  input [inp]  output [out] *)
+Definition debounce_step (period : Z) : rstep := fun st inp =>
+  match st, inp with
+  | [cnt; out], [i] =>
+      let '(cnt', out') :=
+        if vbit i then (if cnt =? period then (cnt, 1) else (cnt + 1, out))
+        else (if cnt =? 0 then (cnt, 0) else (cnt - 1, out)) in
+      ([cnt'; out'], Ok [obit (out' =? 1)])
+  | _, _ => (st, Err ETypeError)
+  end.
